@@ -12,7 +12,7 @@ EXTRA = {  # additional checks expected to notice the defect
     "e9657d0": ["C14"], "d889618": ["C14"], "7cd4507": ["C04"], "dc07110": ["C04"], "91a2486": ["C06"],
     "b0cde41": ["C04"], "308b00d": ["C05"], "3b76bd2": ["C01"], "a0629a8": ["C11"], "bf61b9d": ["C16"],
     "d68c989": ["C16"], "7c90970": ["C16"], "2bce44c": ["C16"], "982a8c2": ["C20"], "84bd0fb": ["C17"],
-    "0605be9": ["C17"], "f96394a": ["C15"], "e71f868": ["C15"], "bbc51a4": ["C07"], "4fb3d8d": ["C09"], "e8bd6d0": ["C11"],
+    "0605be9": ["C17"], "f96394a": ["C15"], "e71f868": ["C15"], "bbc51a4": ["C07"], "4fb3d8d": ["C09"], "1ae39a8": ["C20"], "e8bd6d0": ["C11"],
 }
 
 
